@@ -95,11 +95,13 @@ package req
 //@ ghost var rwHostEmpty bool
 //@ ghost var rwUH int
 //@ ghost var rwUHArr int
+// rwConnect: the method is CONNECT - its request target is the authority (host:port), also when written for a proxy
+//@ ghost var rwConnect bool
 //@ func write(req, w, usingProxy) err
 //@   props C11
 //@   abstract
 //@   noinline
-//@   modifies rwHdr, rwCL, rwHostEmpty, rwUH, rwUHArr
+//@   modifies rwHdr, rwCL, rwHostEmpty, rwUH, rwUHArr, rwConnect
 //@   ghostset-at-entry rwHdr = 0
 //@   ghostset-at-entry rwCL = -5
 //@   ghostset after RequestHeader.SetContentLength: rwCL = arg1
@@ -113,6 +115,9 @@ package req
 //@   ghostset after URI.Host: rwUH = len(result)
 //@   ghostset after URI.Host: rwUHArr = arr(result)
 //@   assert before RequestHeader.SetHostBytes: rwHostEmpty && len(arg1) == rwUH && arr(arg1) == rwUHArr && rwUH > 0
+//@   ghostset-at-entry rwConnect = false
+//@   ghostset after Equal: rwConnect = result
+//@   assert before RequestHeader.SetRequestURIBytes: rwConnect ==> len(arg1) == rwUH && arr(arg1) == rwUHArr
 //@   unreachable-return 5 :: hasBody is set whenever the body is non-empty, so the "non-zero body for non-POST request" return is dead
 
 // ---- C01 / C03: reading a buffered request body ----
